@@ -261,6 +261,9 @@ fn mutating_bodies() -> Vec<(&'static str, String)> {
         ("range bound shrinks", "n := 5\nfor v in 0 .. n {\nn = 1\nprint(v)\n}\nprint(n)\n"),
         ("range bound read from an element", "b := [4]\nfor v in 1 .. b[0] {\nb[0] = 2\nprint(v)\n}\nprint(b)\no := {\"hi\": 2}\nfor v in 0 .. o.hi {\no.hi += 5\nprint(v)\n}\nprint(o)\n"),
         ("range bounds in a function", "fn upto(n) {\nout := []\nfor v in 0 .. n {\nn -= 1\nout += [v]\n}\nreturn [out, n]\n}\nprint(upto(4))\n"),
+        ("return null in a loop that ends the function", "fn first(xs) {\nfor x in xs {\nprint(x)\nreturn null\n}\n}\nprint(first([1, 2, 3]))\nfn firstw() {\nn := 0\nwhile true {\nn += 1\nprint(n)\nreturn null\n}\n}\nprint(firstw())\n"),
+        ("return null under if in a loop that ends the function", "fn below(xs, lim) {\nfor [i, x] in xs {\nif x < lim {\nprint(x)\nreturn null\n} else {\nprint(\"skip\")\n}\n}\n}\nprint(below([5, 1, 0, 2], 3))\ng := fn (xs) {\n{\nfor x in xs {\n{\nprint(x)\nreturn null\n}\n}\n}\n}\nprint(g([7, 8]))\n"),
+        ("bare values returned from a loop that ends the function", "fn f0(xs) {\nfor x in xs {\nprint(x)\nreturn 0\n}\n}\nfn ff(xs) {\nfor x in xs {\nprint(x)\nreturn false\n}\n}\nfn fe(xs) {\nfor x in xs {\nprint(x)\nreturn []\n}\n}\nprint([f0([1, 2]), ff([3, 4]), fe([5, 6])])\nfn nested(rows) {\nfor r in rows {\nfor c in r {\nprint(c)\nreturn null\n}\n}\n}\nprint(nested([[1, 2], [3]]))\n"),
         ("empty iterables", "for e in [] {\nprint(\"no\")\n}\nfor e in \"\" {\nprint(\"no\")\n}\nfor e in {} {\nprint(\"no\")\n}\nfor e in 3 .. 3 {\nprint(\"no\")\n}\nprint(\"done\")\n"),
     ];
     for (n, s) in lists {
